@@ -101,6 +101,15 @@ var CompositeKinds = []Kind{
 		addSchema(s, "Item", objAB())
 		return spec.Arr(spec.RefTo("Item"))
 	}},
+	{Name: "array<map<int32>>", Build: func(*spec.Spec) *spec.Schema {
+		return spec.Arr(&spec.Schema{Type: "object", Add: spec.TF("integer", "int32")})
+	}},
+	{Name: "array<oneOf[ref,ref]>", Build: func(s *spec.Spec) *spec.Schema {
+		addSchema(s, "Item", objAB())
+		addSchema(s, "Item2", spec.Obj(spec.P("c", spec.T("string"))).Req("c"))
+		return spec.Arr(&spec.Schema{OneOf: []*spec.Schema{spec.RefTo("Item"), spec.RefTo("Item2")}})
+	}},
+	{Name: "array<array<string>>", Build: func(*spec.Spec) *spec.Schema { return spec.Arr(spec.Arr(spec.T("string"))) }},
 	{Name: "object", Build: func(*spec.Spec) *spec.Schema { return objAB() }},
 	{Name: "object-empty", Build: func(*spec.Spec) *spec.Schema { return spec.T("object") }},
 	{Name: "object+addtrue", Build: func(*spec.Spec) *spec.Schema { o := objAB(); o.AddBool = spec.Bool(true); return o }},
@@ -129,6 +138,13 @@ var CompositeKinds = []Kind{
 		addSchema(s, "Cat", spec.Obj(spec.P("kind", spec.T("string")), spec.P("a", spec.T("string"))).Req("kind"))
 		addSchema(s, "Dog", spec.Obj(spec.P("kind", spec.T("string")), spec.P("c", spec.T("string"))).Req("kind"))
 		return &spec.Schema{OneOf: []*spec.Schema{spec.RefTo("Cat"), spec.RefTo("Dog")}, Disc: &spec.Disc{Prop: "kind", Mapping: map[string]string{"cat": "Cat", "dog": "Dog"}}}
+	}},
+	// partial mapping: an alias for the first of three variants, the others addressed by schema name
+	{Name: "oneOf+disc-partial", Build: func(s *spec.Spec) *spec.Schema {
+		addSchema(s, "Cat", spec.Obj(spec.P("kind", spec.T("string")), spec.P("a", spec.T("string"))).Req("kind"))
+		addSchema(s, "Dog", spec.Obj(spec.P("kind", spec.T("string")), spec.P("c", spec.T("string"))).Req("kind"))
+		addSchema(s, "Emu", spec.Obj(spec.P("kind", spec.T("string")), spec.P("e", spec.TF("integer", "int32"))).Req("kind"))
+		return &spec.Schema{OneOf: []*spec.Schema{spec.RefTo("Cat"), spec.RefTo("Dog"), spec.RefTo("Emu")}, Disc: &spec.Disc{Prop: "kind", Mapping: map[string]string{"kitty": "Cat"}}}
 	}},
 }
 
